@@ -7,7 +7,7 @@ from harness import frames_gen as G
 from harness import proto_impl as PI
 
 
-def make_connection(open_script, log, transports, consumers=3):
+def make_connection(open_script, log, transports, consumers=3, default_ok=True):
     """open_script: list of booleans (success / failure) consumed by successive _open_connection calls."""
     from pyplumio.connection import Connection
     from pyplumio.protocol import AsyncProtocol
@@ -15,7 +15,7 @@ def make_connection(open_script, log, transports, consumers=3):
     class Scripted(Connection):
         async def _open_connection(self):
             loop = asyncio.get_running_loop()
-            ok = open_script.pop(0) if open_script else True
+            ok = open_script.pop(0) if open_script else default_ok
             log.append(["open", loop.time(), bool(ok)])
             if not ok:
                 raise OSError("scripted open failure")
